@@ -63,9 +63,9 @@ BATCHES = [
     # FakePGP against gpg (slow: real key generation; early so that it overlaps with the rest)
     wire('gpg-calibration', 2, 8, mode='gpg', tls=False),
     # ---- reproduction batches of the two genuine defects (silent once the proposed fixes are applied) ----
-    wire('defect: message after a closing message', 80, 1500, mode='enum', after_close=True, defect=True),
-    wire('defect: message after a closing message (SimConn)', 30, 500, mode='net', after_close=True, defect=True, rounds=8),
-    wire('defect: client handshake under fragmentation', 25, 500, mode='client', tls=False, steer_client_hs=False, defect=True, rounds=8),
+    wire('closing message followed by more bytes (repaired in 16dd36e)', 80, 1500, mode='enum', after_close=True, defect=True),
+    wire('closing message followed by more bytes, SimConn (repaired in 16dd36e)', 30, 500, mode='net', after_close=True, defect=True, rounds=8),
+    wire('client handshake under fragmentation (repaired in 70910f3)', 25, 500, mode='client', tls=False, steer_client_hs=False, defect=True, rounds=8),
     # ---- fault batches, steered clear of the two defects (cheap ones first: a wall-budget cut then costs the least) ----
     # real client code under short reads
     wire('faults: real clients, short reads', 140, 4000, mode='client', rounds=8),
